@@ -18,6 +18,14 @@ CLAIMS = {
          "a contract over a pure function: the specification contributes the oracle, not exploration", "4 C09"),
  "C03": ("TLC model checking of SwapBounds as an action property on the toy instance + trace validation of every successful swap (v1, v2, "
          "transfer-fee mints) of recorded histories against SwapBounds evaluated on balance deltas", "as C01", "4 C03"),
+ "C04": ("spec -> impl replay of an authority matrix + trace validation: every privileged instruction (both dispatchers) of a prepared world is probed on copies of the bank with "
+         "unsigned / foreign / other-authority / delegate 0,1,2 / emptied-token-account / coherent-foreign-(config,authority) variants; TLC checks ok => Guard (module WpIface: the authority "
+         "recorded in the abstract state signed), base instructions succeed, failures are atomic; toy instance: OwnerSigned",
+         "exhaustive over the finite matrix of the prepared world; the spec's Guard is the oracle", "4 C04"),
+ "C15": ("spec -> impl replay of a substitution matrix + trace validation: for every slot of every fund-moving/privileged instruction, single-account substitutions by accounts of the same "
+         "kind; TLC checks ok => interface relations of module WpIface (vault of the pool for that token, mint, position/tick array/oracle of the pool, reward vault of the index, "
+         "token program owning the mint, memo program), two-hop distinct pools sharing the intermediate mint",
+         "quick samples 10 substitutes per slot, thorough substitutes every candidate (exhaustive over the prepared world)", "4 C15"),
  "C05": ("TLC model checking of LiqSum/TickSums/TickInit on the toy instance + the same invariants evaluated by TLC on the projected state after every "
          "recorded instruction (both tick-array encodings, Pinocchio handlers)", "as C01", "4 C05"),
  "C06": ("TLC model checking of StepsOK/SplitExact action properties on the toy instance + trace validation: per-step fee formula, protocol cut, growth "
